@@ -135,6 +135,8 @@ def generate(I, qual, rep, opts, only_cases=None):
     I.cur_func = qual
     I.cur_func_qual = qual
     I.cur_contract = c
+    for k_, v_ in getattr(c, 'options', {}).items():
+        setattr(I, k_, v_)
     scope = c.scope
     argnames = [a.arg for a in fnode.args.args]
     covers = []
@@ -196,6 +198,9 @@ def generate(I, qual, rep, opts, only_cases=None):
                 covers.append((label, 'requires', list(st.pc)))
                 continue
             I.base_pc = list(st.pc)
+            I.case_serial += 1
+            I._spec_cache = {}
+            I._spec_pins = []
             probes = []
             for a in argnames:
                 value_probes(I, st, a, env[a], probes)
